@@ -25,6 +25,7 @@ import (
 type stateMachine struct {
 	State                 sessionState
 	pendingStop, stopped  bool
+	disconnecting         bool
 	notifyOnInSessionTime chan interface{}
 }
 
@@ -181,8 +182,12 @@ func (sm *stateMachine) CheckResetTime(session *session, now time.Time) {
 
 func (sm *stateMachine) setState(session *session, nextState sessionState) {
 	if !nextState.IsConnected() {
-		if sm.IsConnected() {
+		// Draining the inbound channel while disconnecting re-enters setState with the
+		// old state still in place; the disconnect must be handled (and OnLogout sent) once.
+		if sm.IsConnected() && !sm.disconnecting {
+			sm.disconnecting = true
 			sm.handleDisconnectState(session)
+			sm.disconnecting = false
 		}
 
 		if sm.pendingStop {
